@@ -56,6 +56,16 @@ def siblings(i, j, F, objlike, rng):
     out += [S("tname", {}, shape="tuple"), S("tinl", {"inline": True}, shape="tuple"), S("nname", {}, shape="newtype"), S("ninl", {"inline": True}, shape="newtype")]
     if objlike:
         out.append(S("flat", {"flatten": True}))
+    if objlike:
+        # a parent whose ONLY own property is its tag: flattening F must keep the tag (`{ kind: "..." } & F`), in a struct and in a struct
+        # variant of an internally tagged enum
+        tf = S("tagflat", {"flatten": True})
+        tf["fields"] = [f for f in tf["fields"] if f["name"] != "pre"]
+        tf["attrs"] = {"tag": "kind"}
+        out.append(tf)
+        out.append({"kind": "enum", "name": f"S{i}_{j}_vtagflat", "attrs": {"tag": "t"}, "generics": [], "_tag": "vtagflat",
+                    "variants": [{"name": "V", "shape": "named", "fields": [{"name": "f", "ty": FT, "attrs": {"flatten": True}}], "attrs": {}},
+                                 {"name": "U", "shape": "unit", "fields": [], "attrs": {}}]})
     # containers of F, by name / inlined
     for ctag, cty in (("cvec", VEC(FT)), ("copt", OPT(FT))):
         out += [S(ctag + "name", {}, cty), S(ctag + "inl", {"inline": True}, cty)]
@@ -218,6 +228,15 @@ def run(ctx):
                 qs.append({"op": "oracle_c14", "decls": base_decls, "unfold": base_names, "a": "type X =" + body("flat"),
                            "b": "type X = { pre: number, } & (" + fref + ");"})
                 meta.append(("flatten", gname, "flat", "name", case_items, g["flat"][1]["decl"]["ok"], g["name"][1]["decl"]["ok"]))
+                # ... and when the parent's only own property is its tag
+                if "tagflat" in g and body("tagflat") is not None:
+                    qs.append({"op": "oracle_c14", "decls": base_decls, "unfold": base_names, "a": "type X =" + body("tagflat"),
+                               "b": 'type X = { "kind": "' + gname + '_tagflat", } & (' + fref + ");"})
+                    meta.append(("flatten", gname, "tagflat", "name", case_items, g["tagflat"][1]["decl"]["ok"], g["name"][1]["decl"]["ok"]))
+                if "vtagflat" in g and body("vtagflat") is not None:
+                    qs.append({"op": "oracle_c14", "decls": base_decls, "unfold": base_names, "a": "type X =" + body("vtagflat"),
+                               "b": 'type X = { "t": "V", } & (' + fref + ') | { "t": "U", };'})
+                    meta.append(("flatten", gname, "vtagflat", "name", case_items, g["vtagflat"][1]["decl"]["ok"], g["name"][1]["decl"]["ok"]))
     res = vlib.run_model(qs) if qs else []
     fails = 0
     for q, m, o in zip(qs, meta, res or []):
